@@ -10,9 +10,35 @@ From NP Require Corr.C01 Corr.C04 Corr.C02.
 Import ListNotations.
 Open Scope Z_scope.
 
-Definition case := TcpTrace.case.
+(* a wrap-adjacent trace and its twin: the same script replayed against a connection whose initial
+   sequence numbers are far from both boundaries *)
+Inductive case := CTwin (a b : TcpTrace.case).
 
-Definition spec (c : case) : Z :=
+(* what an observer sees, with sequence numbers expressed as offsets from the connection's own
+   initial sequence numbers: every emitted frame (sequence number relative to ISS+1, acknowledgement
+   number relative to IRS+1 when the ACK flag is set, flags, window field, payload) and every
+   application result, step by step.  Model-independent: it looks at the implementation's
+   observations only. *)
+Definition norm_frame (iss irs : Z) (f : frame) : list Z :=
+  [u32 (f_seq f - iss - 1);
+   (if Z.land (f_flags f) 16 =? 0 then f_ack f else u32 (f_ack f - irs - 1));
+   f_flags f; f_wnd f] ++ encBytes (f_data f).
+Definition norm_obs (iss irs : Z) (o : obs) : list Z :=
+  encList (norm_frame iss irs) (o_frames o) ++ encRes (o_res o).
+Definition norm_trace (c : TcpTrace.case) : list (list Z) :=
+  match c with
+  | CTrace cfg _ _ steps => map (norm_obs (cfg_get cfg 0) (cfg_get cfg 1)) steps
+  end.
+Fixpoint zll_eqb (a b : list (list Z)) : bool :=
+  match a, b with
+  | [], [] => true
+  | x :: a', y :: b' => zlist_eqb x y && zll_eqb a' b'
+  | _, _ => false
+  end.
+(* "behaves identically wherever the ISS places the stream" *)
+Definition twin_same (a b : TcpTrace.case) : bool := zll_eqb (norm_trace a) (norm_trace b).
+
+Definition spec1 (c : TcpTrace.case) : Z :=
   let a := C01.spec c in
   let b := C04.spec c in
   let d := C02.spec c in
@@ -22,7 +48,12 @@ Definition spec (c : case) : Z :=
 (* non-trivial: data moved and a boundary was actually crossed by a sequence number in the trace *)
 Definition crosses (x y : Z) : bool :=
   ((x <? 2^31) && (2^31 <=? y)) || (y <? x).
-Definition tag (c : case) : Z :=
+Definition spec (c : case) : Z :=
+  match c with
+  | CTwin a b => if negb (spec1 a =? 0) then 1 else if twin_same a b then 0 else 1
+  end.
+
+Definition tag1 (c : TcpTrace.case) : Z :=
   match c with
   | CTrace cfg _ init steps =>
       let moved := negb (Z.of_nat (length (reads_of steps)) =? 0) || existsb (fun f => negb (Z.of_nat (length (f_data f)) =? 0)) (frames_of steps) in
@@ -32,5 +63,12 @@ Definition tag (c : case) : Z :=
       if moved then (if cr then 2 else 1) else 0
   end.
 
-Definition judge (c : case) : list Z := [trace_corr c; spec c; tag c].
+Definition tag (c : case) : Z := match c with CTwin a _ => tag1 a end.
+Definition corr (c : case) : Z :=
+  match c with
+  | CTwin a b => let x := trace_corr a in if negb (x =? 0) then x else
+                 let y := trace_corr b in if negb (y =? 0) then 500000 + y else 0
+  end.
+
+Definition judge (c : case) : list Z := [corr c; spec c; tag c].
 Definition judge_all (cs : list case) : list Z := flat_map judge cs.
